@@ -472,3 +472,70 @@ func FatalInStderr(s string) string {
 	}
 	return ""
 }
+
+// Wedged decides, from the goroutine dump a watchdog's SIGQUIT produced, whether the request that outlived the
+// watchdog can never be answered: the goroutine serving it is parked on a channel / semaphore / mutex and has been
+// for minutes, and so is every other goroutine that has server code on its stack (the process is quiescent: nobody
+// is left who could wake the request up).  A request that is merely slow on a loaded machine has a goroutine that is
+// running, runnable, in a system call or recently parked, and is reported as not wedged (inconclusive).
+// Returns the server function the request is parked in.
+func Wedged(stderr string) (bool, string) {
+	i := strings.Index(stderr, "SIGQUIT: quit")
+	if i < 0 {
+		return false, ""
+	}
+	dump := stderr[i:]
+	reqFrame := ""
+	for _, g := range strings.Split(dump, "\n\n") {
+		lines := strings.Split(g, "\n")
+		if len(lines) < 2 || !strings.HasPrefix(lines[0], "goroutine ") || strings.HasPrefix(lines[0], "goroutine 0 ") {
+			continue
+		}
+		hdr := lines[0]
+		state := hdr
+		if a := strings.Index(hdr, "["); a >= 0 {
+			state = strings.TrimSuffix(strings.TrimSpace(hdr[a+1:]), "]:")
+		}
+		first, serving, daemon := "", false, false
+		for _, l := range lines[1:] {
+			if strings.HasPrefix(l, "\t") {
+				continue
+			}
+			if strings.Contains(l, "janelia-flyem/dvid/") {
+				if first == "" && !strings.HasPrefix(l, "created by ") {
+					first = l
+					if k := strings.LastIndex(first, "("); k > 0 {
+						first = first[:k]
+					}
+				}
+				for _, d := range []string{"storage.loadMonitor", "server.init.", "badger.syncPeriodically", "dvid.init", "storage.init", "datastore.init", "filelog.", "dvid.(*", "server.serveLoop"} {
+					if strings.Contains(l, d) && !strings.HasPrefix(l, "created by ") {
+						daemon = true
+					}
+				}
+			}
+			if strings.Contains(l, "server.ServeSingleHTTP") {
+				serving = true
+			}
+		}
+		if first == "" {
+			continue // no server code on this stack
+		}
+		parked := strings.HasPrefix(state, "chan ") || strings.HasPrefix(state, "semacquire") || strings.HasPrefix(state, "sync.") || strings.HasPrefix(state, "select (no cases)")
+		long := strings.Contains(state, "minutes")
+		if serving {
+			if !(parked && long) {
+				return false, ""
+			}
+			reqFrame = first
+			continue
+		}
+		if daemon && !serving {
+			continue
+		}
+		if !(parked && long) {
+			return false, "" // somebody with server code on its stack may still make progress
+		}
+	}
+	return reqFrame != "", strings.TrimSpace(reqFrame)
+}
